@@ -1,4 +1,5 @@
 //! Registry of per-property checks.
+pub mod c02;
 pub mod c03;
 pub mod c04;
 pub mod c05;
@@ -37,6 +38,7 @@ macro_rules! registry {
 }
 
 registry! {
+    "C02" => c02,
     "C03" => c03,
     "C04" => c04,
     "C05" => c05,
